@@ -26,6 +26,8 @@ FLAVOURS = {
     "ndebug": dict(cc="gcc", cflags=["-O2", "-g", "-DNDEBUG"], ldflags=[]),
     "tsan": dict(cc="clang", cflags=["-O1", "-g", "-fno-omit-frame-pointer", "-fsanitize=thread"],
                  ldflags=["-fsanitize=thread"]),
+    # developer aid (bin/covrun): line coverage of the library under the quick tier; never used by a registered check
+    "cov": dict(cc="gcc", cflags=["-O0", "-g", "--coverage", "-DVERIF_COV=1"], ldflags=["--coverage"]),
     "msan": dict(cc="clang", cflags=["-O1", "-g", "-fno-omit-frame-pointer", "-fsanitize=memory",
                                      "-fsanitize-memory-track-origins=0"],
                  ldflags=["-fsanitize=memory"]),
@@ -91,6 +93,8 @@ def build_harness(repo, flavour, name, harness_srcs, exclude_lib=(), extra_cflag
     nosan_srcs   : paths relative to /verif/src compiled WITHOUT sanitizer flags (scheduler TU)
     exclude_lib  : repository sources that the harness #includes itself (to reach static functions)
     """
+    if os.environ.get("VERIF_COV") == "1" and flavour in ("asan", "plain", "ndebug"):
+        flavour = "cov"
     fl = FLAVOURS[flavour]
     th = tree_hash(repo)
     src_root = os.path.join(VERIF, "src")
@@ -140,6 +144,9 @@ def build_harness(repo, flavour, name, harness_srcs, exclude_lib=(), extra_cflag
 
         def cc(job):
             src, obj, flags = job
+            if flavour == "cov":  # the notes/data file names derive from the output name: no temporary name here
+                _run([fl["cc"]] + flags + ["-c", src, "-o", obj])
+                return
             tmp = obj + ".tmp.%d" % os.getpid()
             _run([fl["cc"]] + flags + ["-c", src, "-o", tmp])
             os.replace(tmp, obj)
